@@ -154,6 +154,21 @@ def main(argv):
                    nontrivial=lambda c, o: any(r[0] in (5, 8) for r in o["rows"]), theorems_note=THEOREMS,
                    strip=lambda c: {"a": c["a"], "b": c["b"], "sched": c["sched"]})
     tcs = type_cases(tier, rng)
+    # kind-E tie: pairing tables regenerated from the Rust sources must equal the model's; when they do not, the
+    # pairs on which they differ are searched for a failing input on real sockets
+    tok, info = C.table_stage(res)
+    table_broken = not tok
+    if table_broken and info:
+        code2name = {i: n for i, n in enumerate(E.STYPES)}
+        v2pairs = {(a, code2name.get(c, "?")) for a, c in info["v2"]}
+        ipairs = set(info["inproc"])
+        changed = {p for p in (v2pairs ^ VALID11) if p[0] in RZ_TYPES and p[1] in RZ_TYPES}
+        changed |= {p for p in (ipairs ^ (VALID - {("DEALER", "DEALER")}))}
+        for (a, b) in sorted(changed):
+            for tr in ("tcp", "inproc"):
+                tcs.insert(0, {"k": "typepair", "connector": a, "binder": b, "transport": tr})
+        res.notes.append("pairing table in the sources differs from the model on %s" % sorted(changed))
+    nviol_before = len(res.violations)
     for c in tcs:
         res.count("typepair:%s" % c["transport"])
     C.differential(res, PROP, "stack", tcs, type_coq, REQ, "typepair_mismatches",
@@ -161,5 +176,10 @@ def main(argv):
                    theorems_note="C05_one_verdict", tag="types",
                    signature=lambda c, o, m: ("C05:connector-not-notified-after-refusal" if m == "RACE" else
                                               "C05:verdict:%s:%s->%s" % (c["transport"], c["connector"], c["binder"])))
+    if table_broken and len(res.violations) == nviol_before:
+        res.violation({"property": PROP, "broken": "Proofs/TablesCheck.v: the socket-type pairing tables or protocol constants extracted "
+                       "from /repo/core/src no longer equal the model's (x_v2_table_ok / x_inproc_table_ok / x_limits_ok)",
+                       "theorems_relying_on_tie": "C05_v3_verdict_is_v2_verdict, C05_one_verdict_outside, C05_converge_grid",
+                       "log": res.extra.get("tables_check_log", "")}, found_input=False)
     return res.finish(assumptions=["two rzmq endpoints always negotiate ZMTP/3 (ZMTP/2 verdicts concern foreign peers; table checked in Coq)",
                                    "EOF propagation when one engine closes is the transport's job (actor level)"])
